@@ -22,7 +22,7 @@ theorem msgFulfill_ok {s s' : St} {a : Addr} {id : Bytes} {fee : Int} (h : msgFu
 theorem msgUpdateFee_ok {s s' : St} {a : Addr} {id : Bytes} {fee : Int} (h : msgUpdateFee s a id fee = .ok s') :
     0 ≤ fee ∧ ∃ o p price, getOutstanding s id = .ok o ∧ a = o.recipient ∧ getPacket s o.trackingKey = some p ∧
       calcPrice p.amount fee (if p.ptype == .onRecv then s.bridgingFee else Dec.zero) = .ok price ∧
-      s' = setOrder s { o with fee := fee, price := price } := by
+      s' = setOrder s { o with fee := fee, price := price, amount := p.amount, withBf := p.ptype == .onRecv } := by
   unfold msgUpdateFee at h
   split at h
   · cases h
